@@ -273,7 +273,7 @@ func JudgeQueueLimits(w *World) *Verdict {
 	v := &Verdict{History: h, Findings: EngineFindings(h)}
 	var tot QueueFacts
 	for _, rec := range h.Cycles {
-		if rec.Panic != "" || rec.Hung {
+		if rec.Panic != "" || rec.Hung || rec.Starved {
 			continue
 		}
 		fs, f := CheckQueueLimits(w, rec)
